@@ -220,6 +220,9 @@ def dilute_spec(case, dr):
     ps = {'HS': {'t': 'HS'}, 'HCLJ': {'t': 'HCLJ', 'eps': eps}, 'EXP': {'t': 'EXP', 'eps': eps, 'alpha': case['alpha']}, 'LJ': {'t': 'LJ', 'eps': abs(eps)},
           'LJcs': {'t': 'LJ', 'eps': abs(eps), 'rcut': 2.5, 'shift': True}, 'LJc': {'t': 'LJ', 'eps': abs(eps), 'rcut': 3.0, 'shift': False}, 'WCA': {'t': 'WCA', 'eps': abs(eps)}}[pot]
     cs = {'t': case['clo'], 'hc': case['clo'] == 'MSA' or bool(case.get('hc'))}
+    hsel = zlib.crc32(json.dumps(case, sort_keys=True, default=str).encode()) // 7 % 5
+    if ps['t'] in ('HS', 'HCLJ', 'EXP') and hsel >= 3:
+        ps['hv'] = [2.5, 4.0][hsel - 3]          # a finite shoulder of a few kT instead of a hard core (penetrable spheres): exp(-hv/kT) is not zero
     L = int(round(case.get('rmax', 25.6) / dr))
     return dict(types=['A'], dr=dr, L=L, d={'A': 1.0}, rho={'A': 6 * 10.0 ** case.get('rho_exp', -7) / math.pi}, kT=case['kT'], pot={'A|A': ps}, clo={'A|A': cs}, om={'A|A': {'t': 'SS'}},
                 via=case.get('via', 'dr'), kT_via=case.get('kT_via', 'ctor'), labels={'A': label_of(case)})
@@ -229,7 +232,7 @@ def h_exact(ps, clo, kT, x, hc=False):
     """dilute-limit h(r) at scalar distances"""
     x = np.atleast_1d(np.asarray(x, dtype=float))
     with np.errstate(all='ignore'):
-        u = R.u_ref(dict(ps, hv=np.inf), x, 1.0) / kT
+        u = R.u_ref(dict(ps, hv=ps.get('hv', np.inf)), x, 1.0) / kT
         if clo == 'MSA':
             return np.where(x > 1.0, -np.where(np.isfinite(u), u, 0.0), -1.0)
         if hc:
